@@ -107,6 +107,13 @@ def check(chk):
                 else:
                     order = isinstance(enc[0].ast, ast.Assign) and src(enc[0].ast.targets[0]) == plain and enc[0].ast.value is ec and src(arg) == plain and \
                         not g.dominates(enc[0], apps_[0]) and any(apps_[0] is x or True for x in [apps_[0]])
+    # ... and every non-null value of an encrypted column is encrypted - also an empty one (the reader decrypts whatever is not null): no test of the serialized bytes
+    if ok and enc:
+        extra = sorted(set(k for fa, _c in fl.at(enc[0]) for k, p_ in fa.items if any(isinstance(x_, ast.Name) and x_.id == src(ec.args[1]) for x_ in ast.walk(ast.parse(k, mode='eval').body)
+                                                                                    if not k.startswith('('))))
+        chk.judge(not extra, 'C39.null', bind, 'bind: the decision to encrypt does not look at the serialized bytes',
+                  'encryption additionally depends on %s: an empty text / blob value of an encrypted column is sent as zero plaintext bytes, and the decoder - which decrypts every non-null cell - '
+                  'fails on the page that contains it' % extra)
     chk.judge(ok, 'C39.null', bind, 'bind: encrypt only non-null values of encrypted columns (None is sent as null)', 'bind encrypts under the wrong condition')
     sb = src(bind)
     chk.judge(order and 'col_desc = ColDesc(col_spec.keyspace_name, col_spec.table_name, col_spec.name)' in sb and 'col_type = ce_policy.column_type(col_desc) if uses_ce else col_spec.type' in sb
